@@ -1004,4 +1004,22 @@ BENIGN = [
            "            metadata = EvalMetaData(self.variables_used, self.functions_used, self.suffixes_used,\n                                    metadata_dict['max_array_dim_used'])"),
     Benign('constructor-copies-sets', EXPR, "        self.variables_used = variables_used\n        self.functions_used = functions_used\n        self.suffixes_used = suffixes_used",
            "        self.variables_used = set(variables_used)\n        self.functions_used = set(functions_used)\n        self.suffixes_used = set(suffixes_used)"),
+    Benign('init-calls-reset-storage', EXPR, "        self.variables_used = set()\n        self.functions_used = set()\n        self.suffixes_used = set()\n        self.max_array_dim_used = 0",
+           "        self.reset_storage()\n        self.max_array_dim_used = 0"),
+    Benign('raw-parse-returns-inside-try-finally', EXPR,
+           "            parsed = MathExpression(expression,\n                                    tree,\n                                    self.variables_used,\n"
+           "                                    self.functions_used,\n                                    self.suffixes_used)\n" + _FINALLY,
+           "            return MathExpression(expression, tree, self.variables_used, self.functions_used, self.suffixes_used)\n"
+           "        finally:\n            self.reset_storage()"),
+    Benign('cache-lookup-by-keyerror', EXPR, "        if expression_no_whitespace in self.cache:\n            return self.cache[cache_key]\n",
+           "        try:\n            return self.cache[cache_key]\n        except KeyError:\n            pass\n"),
+    Benign('fill-on-miss-single-return', EXPR,
+           "        if expression_no_whitespace in self.cache:\n            return self.cache[cache_key]\n\n        try:\n"
+           "            parsed = self.raw_parse(expression_no_whitespace)\n        except ParseException:\n"
+           "            msg = \"Invalid Input: Could not parse '{}' as a formula\"\n            raise UnableToParse(msg.format(expression))\n\n"
+           "        self.cache[cache_key] = parsed\n        return parsed\n",
+           "        if cache_key not in self.cache:\n            try:\n                self.cache[cache_key] = self.raw_parse(cache_key)\n"
+           "            except ParseException:\n                raise UnableToParse(f\"Invalid Input: Could not parse '{expression}' as a formula\")\n\n"
+           "        return self.cache[cache_key]\n"),
+    Benign('grammar-signs-by-tuple-assignment', EXPR, "        minus = Literal(\"-\") | emdash\n", "        minus, dash = (Literal(\"-\") | emdash, emdash)\n"),
 ]
